@@ -171,7 +171,6 @@ PROPS = {
         "timeout": 3000,
     },
     "C03": {
-        "claimed": False,
         "lean_props": ["ZarrsModel.Props.C03"],
         "harness": "c03",
         "rule": "random codec chains built from metadata JSON (transpose with random order, squeeze, bytes both endians, packbits, pcodec, vlen/vlen_v2/vlen-utf8/vlen-bytes, crc32c, fletcher32, shuffle, "
@@ -199,5 +198,19 @@ PROPS = {
         "trusted_base": COMMON_TB + ["absence of panics/aborts inside external codecs on arbitrary bytes is explored (fuzzed), not proved"],
         "assumptions": ["partial reads through a checksum codec do not validate the checksum (by design of the codec); only no-panic is required of them"],
         "timeout": 3000,
+    },
+    "C02": {
+        "claimed": False,
+        "lean_props": ["ZarrsModel.Props.C02"],
+        "harness": "c02",
+        "rule": "random configurations (half sharded, nested sharding, both index locations, checksums/compressors before and after sharding, transposes, squeeze, vlen types, non-cubic chunks and size-1 "
+                "dims) with chunks written fully / partly fill / left absent; for up to 3 chunks EVERY sub-box (exhaustive when <=150 boxes, else 60 sampled) is read through retrieve_chunk_subset or the "
+                "chunk partial decoder, plus lists of 2-4 regions (sometimes with an empty region) and chunk-crossing retrieve_array_subset; each outcome is compared with the model's full-decode-then-slice "
+                "AND the implementation's own full decode + extract_array_subset (same=true required); non-trivial = distinct partial read returning a value",
+        "nontrivial": lambda l: (" op pdx" in l or " op retrieve_chunk_subset" in l or " op retrieve_array_subset" in l) and " -> val " in l,
+        "exhaustive": True,
+        "exhaustive_scope": "all sub-boxes of the sampled chunks whose shape has at most 150 boxes",
+        "trusted_base": COMMON_TB + ["the sharding partial decoder and the external codecs' own partial decoders (blosc getitem) are corresponded, not modelled"],
+        "assumptions": ["regions in bounds of the chunk"],
     },
 }
